@@ -15,7 +15,7 @@ Extraction "model.ml"
   M_Encode.tx_response_is_valid M_Encode.response_message M_Encode.add_header
   M_Encode.mk_tx_request M_Encode.request_message M_Encode.chunk_header_string
   M_Encode.last_chunk_string M_Encode.to_header M_Encode.standard_name M_Encode.lowercase_name
-  M_Encode.content_length_line M_Encode.chunked_encoding_line
+  M_Encode.content_length_line M_Encode.chunked_encoding_line M_Encode.request_ops_message M_Encode.response_ops
   M_HashMap.hm_run M_HashMap.hm_empty_map M_HashMap.id_hash
   M_Router.split M_Router.uri_path M_Router.get_route_parameters M_Router.handle_request
   M_Router.build_table M_Router.dispatch
